@@ -33,6 +33,7 @@ FIXED = [
  ("fix: reuse the index reference of a response id", ["C19"], "every request for a Vary: * resource appended a record to the index"),
  ("fix: never store or replay hop-by-hop fields", ["C05"], "HTTP/1.0 entries replayed Connection: close; fields named on a second Connection line were stored and replayed"),
  ("fix: make fscache writes atomic", ["C15"], "in-place truncate+write: torn concurrent reads, and a write cut at byte k left a k-byte value that Get returned"),
+ ("fix: treat a stored entry with a truncated body as corrupted", ["C10", "C15"], "a store returning an entry whose body is cut short was served as HIT and the client's body read ended in unexpected EOF (base scenarios x fault 'truncated-body')"),
  ("fix: concurrent Sets of keys that share a directory", ["C14"], "two goroutines storing different long keys with a common directory prefix: one Set failed with 'mkdirat ...: file exists'"),
  ("fix: a key's file can no longer collide with the directory of a longer key", ["C14"], "a 36-byte key and a longer key with that prefix could not coexist (ENOTDIR/EISDIR); the empty key could not be stored"),
 ]
